@@ -659,9 +659,11 @@ theorem inv_swapWithTmp {c : Cfg} (o : Org) (r : World × Outcome) (s : Nat) (h 
   unfold swapWithTmp
   refine inv_andThen _ _ h ?_
   intro w hw _
-  refine inv_andThen _ _ (inv_pSwap hw hsafe s tmpSlot) ?_
-  intro w' hw' _
-  exact inv_pDtor hw' o tmpSlot
+  have hsw := inv_pSwap hw hsafe s tmpSlot
+  cases hp : pSwap c w s tmpSlot with
+  | mk w' out =>
+    rw [hp] at hsw
+    cases out <;> first | exact hsw | exact inv_pDtor hsw o tmpSlot
 
 theorem fresh_ok (al t : Nat) : (Img.fresh al t).mem = none ∧ (Img.fresh al t).w = 0 ∧ (Img.fresh al t).h = 0 ∧ (Img.fresh al t).pix = [] :=
   ⟨rfl, rfl, rfl, rfl⟩
@@ -850,6 +852,250 @@ theorem pDtor_imgs (o : Org) (w : World) (s x : Nat) : (pDtor o w s).imgs x = if
   cases hi : w.imgs s with
   | none => by_cases e : x = s <;> simp [e, hi]
   | some i => simp [release_imgs]
+
+theorem pCtor_fail_imgs (c : Cfg) (o : Org) (w : World) (s : Nat) (img0 : Img) (W H : Nat) (content : List Nat) (src : Option (Nat × Nat))
+    (hf : (pCtor c o w s img0 W H content src).2 ≠ .ok) : (pCtor c o w s img0 W H content src).1.imgs = w.imgs := by
+  unfold pCtor at hf ⊢
+  simp only [] at hf ⊢
+  split
+  · split
+    · rfl
+    · rename_i h1 h2
+      exfalso; apply hf
+      simp only [h1, if_true]
+      rw [if_neg h2]
+  · rename_i hn0
+    simp only [hn0, if_false] at hf
+    rcases alloc_cases w img0.tag (o.needed img0.align W H) with e | ⟨fa, e⟩
+    · rw [e]
+    · rw [e] at hf ⊢; simp only [] at hf ⊢
+      generalize hw1 : ({ w with heap := w.heap ++ [{ size := o.needed img0.align W H, tag := img0.tag }], log := Event.alloc w.heap.length (o.needed img0.align W H) img0.tag :: w.log, failA := fa } : World) = w1 at hf ⊢
+      have hi1 : w1.imgs = w.imgs := by rw [← hw1]
+      have hb1 : w1.heap[w.heap.length]? = some { size := o.needed img0.align W H, tag := img0.tag } := by rw [← hw1]; simp
+      obtain ⟨ci, -, -, -⟩ := construct_some w1 o w.heap.length (W * H) _ hb1
+      cases hres : w1.construct o (some w.heap.length) (W * H) with
+      | mk w2 okc =>
+        rw [hres] at ci hf
+        simp only [] at ci hf
+        cases okc with
+        | true => simp at hf
+        | false => simp [ci, hi1]
+
+theorem pSwap_imgs_other (c : Cfg) (w : World) (s s2 x : Nat) (h1 : x ≠ s) (h2 : x ≠ s2) : (pSwap c w s s2).1.imgs x = w.imgs x := by
+  unfold pSwap
+  split
+  · split
+    · simp [h1, h2]
+    · split
+      · simp [h1, h2]
+      · rfl
+  · rfl
+
+theorem construct_imgs (w : World) (o : Org) (b : Option Nat) (n : Nat) : (w.construct o b n).1.imgs = w.imgs := by
+  unfold World.construct World.grow
+  cases b <;> simp <;> (repeat' split) <;> simp
+
+theorem pReuse_imgs_other (o : Org) (w : World) (s W H x : Nat) (content : List Nat) (h1 : x ≠ s) : (pReuse o w s W H content).1.imgs x = w.imgs x := by
+  unfold pReuse
+  split
+  next i hs =>
+    simp only []
+    cases hres : (w.destruct o i.mem (i.w * i.h)).construct o (Img.withView o i W H).mem (W * H) with
+    | mk w2 okc =>
+      have := construct_imgs (w.destruct o i.mem (i.w * i.h)) o (Img.withView o i W H).mem (W * H)
+      rw [hres] at this
+      simp only [] at this
+      cases okc <;> simp [h1, this]
+  · rfl
+
+theorem pAdopt_imgs_other (o : Org) (w : World) (s s2 x : Nat) (t : Bool) (h1 : x ≠ s) (h2 : x ≠ s2) : (pAdopt o w s s2 t).imgs x = w.imgs x := by
+  unfold pAdopt
+  split
+  · simp [h1, h2, release_imgs]
+  · rfl
+
+theorem userFill_imgs_other (w : World) (s v x : Nat) (h1 : x ≠ s) : (userFill w s v).imgs x = w.imgs x := by
+  unfold userFill
+  split <;> simp [h1]
+
+
+/-! ### the scratch slot of the model (`image tmp`) is free again after every operation that does not stop in an assertion -/
+
+def TmpOK (r : World × Outcome) : Prop := (∃ x, r.2 = .assertFail x) ∨ r.1.imgs tmpSlot = none
+
+theorem tmp_andThen (r : World × Outcome) (k : World → World × Outcome) (hr : r.2 ≠ .ok → TmpOK r) (hk : r.2 = .ok → TmpOK (k r.1)) :
+    TmpOK (andThen r k) := by
+  unfold andThen
+  split
+  next h => exact hk h
+  next h => exact hr (by intro e; exact h e)
+
+theorem tmp_swapWithTmp (c : Cfg) (o : Org) (r : World × Outcome) (s : Nat) (hr : r.2 ≠ .ok → r.1.imgs tmpSlot = none) :
+    TmpOK (swapWithTmp c o r s) := by
+  unfold swapWithTmp
+  refine tmp_andThen _ _ (fun h => Or.inr (hr h)) ?_
+  intro _
+  cases hp : pSwap c r.1 s tmpSlot with
+  | mk w' out =>
+    cases out <;> first | exact Or.inl ⟨_, rfl⟩ | (right; simp [pDtor_imgs])
+
+theorem orgOf_ne_tmp {c : Cfg} {s : Nat} {o : Org} (h : c.orgOf s = some o) : s ≠ tmpSlot := by
+  have := orgOf_lt h; unfold tmpSlot; omega
+
+theorem step_tmpfree (c : Cfg) (w : World) (op : Op) (h : w.imgs tmpSlot = none) : TmpOK (step c w op) := by
+  have keep : ∀ (w' : World) (out : Outcome), w'.imgs tmpSlot = none → TmpOK (w', out) := fun _ _ e => Or.inr e
+  cases op with
+  | dflt s t al =>
+    simp only [step]; split
+    next o ho hs => exact keep _ _ (by simp [Ne.symm (orgOf_ne_tmp ho), h])
+    · exact keep _ _ h
+  | dims s t al W H v =>
+    simp only [step]; split
+    next o ho hs =>
+      have hne := orgOf_ne_tmp ho
+      have hc := (pCtor_imgs c o w s (Img.fresh al (c.tagOf t)) W H (List.replicate (W * H) 0) none).1 tmpSlot (Ne.symm hne)
+      refine tmp_andThen _ _ (fun _ => Or.inr (by rw [hc]; exact h)) ?_
+      intro _; right; simp only []; rw [userFill_imgs_other _ _ _ _ (Ne.symm hne), hc]; exact h
+    · exact keep _ _ h
+  | fill s t al W H v =>
+    simp only [step]; split
+    next o ho hs =>
+      right; rw [(pCtor_imgs c o w s _ W H _ none).1 tmpSlot (Ne.symm (orgOf_ne_tmp ho))]; exact h
+    · exact keep _ _ h
+  | fillprobe s t al W H v =>
+    simp only [step]; split
+    next o ho hs =>
+      have hne := orgOf_ne_tmp ho
+      have hc := (pCtor_imgs c o w s (Img.fresh al (c.tagOf t)) W H (List.replicate (W * H) v) none).1 tmpSlot (Ne.symm hne)
+      split
+      next w' heq =>
+        rw [heq] at hc; simp only [] at hc
+        right; simp only []; rw [userFill_imgs_other _ _ _ _ (Ne.symm hne), hc]; exact h
+      next r hr => right; rw [hc]; exact h
+    · exact keep _ _ h
+  | fromview s t al s2 =>
+    simp only [step]; split
+    next o b ho hs hs2 =>
+      split
+      · right; rw [(pCtor_imgs c o w s _ b.w b.h b.pix _).1 tmpSlot (Ne.symm (orgOf_ne_tmp ho))]; exact h
+      · exact keep _ _ h
+    · exact keep _ _ h
+  | copy s s2 =>
+    simp only [step]; split
+    next o _ b ho _ hs hs2 =>
+      right; rw [(pCtor_imgs c o w s _ b.w b.h b.pix _).1 tmpSlot (Ne.symm (orgOf_ne_tmp ho))]; exact h
+    · exact keep _ _ h
+  | move s s2 =>
+    simp only [step]; split
+    next o b ho hs hs2 =>
+      split
+      · have hne2 : tmpSlot ≠ s2 := by intro e; rw [← e, h] at hs2; cases hs2
+        exact keep _ _ (by simp [Ne.symm (orgOf_ne_tmp ho), hne2, h])
+      · exact keep _ _ h
+    · exact keep _ _ h
+  | assign s s2 =>
+    simp only [step]; split
+    next o _ ho _ =>
+      unfold stepAssign
+      split
+      next a b hs hs2 =>
+        split
+        · exact keep _ _ (by simp [Ne.symm (orgOf_ne_tmp ho), h])
+        · refine tmp_swapWithTmp c o _ s ?_
+          intro hf; rw [pCtor_fail_imgs _ _ _ _ _ _ _ _ _ hf]; exact h
+      · exact keep _ _ h
+    · exact keep _ _ h
+  | massign s s2 =>
+    simp only [step]; split
+    next o ho =>
+      have hne := orgOf_ne_tmp ho
+      split
+      · unfold stepMoveAssign
+        split
+        next a b hs hs2 =>
+          have hne2 : tmpSlot ≠ s2 := by intro e; rw [← e, h] at hs2; cases hs2
+          split
+          · exact keep _ _ h
+          · split
+            · exact keep _ _ (by rw [pAdopt_imgs_other _ _ _ _ _ _ (Ne.symm hne) hne2]; exact h)
+            · split
+              · exact keep _ _ h
+              · split
+                · exact keep _ _ (by rw [pAdopt_imgs_other _ _ _ _ _ _ (Ne.symm hne) hne2]; exact h)
+                · split
+                  · refine tmp_andThen _ _ ?_ ?_
+                    · intro hf; right; rw [pCtor_fail_imgs _ _ _ _ _ _ _ _ _ hf]; exact h
+                    · intro _; right; simp [pDtor_imgs]
+                  · exact keep _ _ (by rw [pRelease_imgs o s a hs]; simp [Ne.symm hne, h])
+        · exact keep _ _ h
+      · exact keep _ _ h
+    · exact keep _ _ h
+  | swap s s2 =>
+    simp only [step]; split
+    next o ho =>
+      split
+      next hc =>
+        have hne2 : tmpSlot ≠ s2 := by unfold tmpSlot; omega
+        cases hp : pSwap c w s s2 with
+        | mk w' out =>
+          have := pSwap_imgs_other c w s s2 tmpSlot (Ne.symm (orgOf_ne_tmp ho)) hne2
+          rw [hp] at this; simp only [] at this
+          exact keep _ _ (by rw [this]; exact h)
+      · exact keep _ _ h
+    · exact keep _ _ h
+  | recreate s W H al fill alloc v =>
+    simp only [step]; split
+    next o ho =>
+      have hne := orgOf_ne_tmp ho
+      unfold stepRec
+      split
+      · exact keep _ _ h
+      next i hs =>
+        simp only []
+        split
+        · split
+          · exact keep _ _ (by rw [userFill_imgs_other _ _ _ _ (Ne.symm hne)]; exact h)
+          · exact keep _ _ h
+        · have h1 : (w.setImg s (some { i with align := al })).imgs tmpSlot = none := by simp [Ne.symm hne, h]
+          have inner : TmpOK (if i.allocated ≥ o.needed al W H then pReuse o (w.setImg s (some { i with align := al })) s W H (List.replicate (W * H) (fill.getD 0))
+              else swapWithTmp c o (pCtor c o (w.setImg s (some { i with align := al })) tmpSlot (Img.fresh al (tmpTag c alloc)) W H (List.replicate (W * H) (fill.getD 0)) none) s) := by
+            split
+            · right; rw [pReuse_imgs_other _ _ _ _ _ _ _ (Ne.symm hne)]; exact h1
+            · refine tmp_swapWithTmp c o _ s ?_
+              intro hf; rw [pCtor_fail_imgs _ _ _ _ _ _ _ _ _ hf]; exact h1
+          refine tmp_andThen _ _ (fun _ => inner) ?_
+          intro hok
+          rcases inner with ⟨x, hx⟩ | hn
+          · rw [hok] at hx; cases hx
+          · split
+            · exact keep _ _ (by rw [userFill_imgs_other _ _ _ _ (Ne.symm hne)]; exact hn)
+            · exact keep _ _ hn
+    · exact keep _ _ h
+  | write s x y v =>
+    simp only [step]; split
+    next o i ho hs =>
+      split
+      · exact keep _ _ (by simp [Ne.symm (orgOf_ne_tmp ho), h])
+      · exact keep _ _ h
+    · exact keep _ _ h
+  | destroy s =>
+    simp only [step]; split
+    next o i ho hs => exact keep _ _ (by rw [pDtor_imgs]; simp [Ne.symm (orgOf_ne_tmp ho), h])
+    · exact keep _ _ h
+  | stop =>
+    simp only [step]
+    have : ∀ (l : List Nat) (w : World), w.imgs tmpSlot = none →
+        (l.foldl (fun w s => match c.orgOf s with | some o => pDtor o w s | none => w) w).imgs tmpSlot = none := by
+      intro l
+      induction l with
+      | nil => intro w hw; exact hw
+      | cons a l ih =>
+        intro w hw; simp only [List.foldl_cons]; apply ih
+        split
+        · rw [pDtor_imgs]; split <;> simp [hw]
+        · exact hw
+    exact keep _ _ (this slots w h)
+  | bad => exact keep _ _ h
 
 theorem inv_stop {c : Cfg} {w : World} (h : Inv c w) : Inv c (step c w .stop).1 := by
   simp only [step]
